@@ -83,3 +83,37 @@ func lemmaShareBound(x float64, k int) {}
 
 // lemmaLivePickIn: a live pick is one of the targets (unfolds the definition of livePick).
 func lemmaLivePickIn(ts []*Target, p *Target) {}
+
+// ---- the effective weights of a route sum to one -----------------------------------------------------------------
+
+// lemmaDivAdd: (a + b) / c = a / c + b / c.
+func lemmaDivAdd(a, b, c float64) {}
+
+// lemmaSumWFixed: if every target has the prescribed weight (its fixed weight divided by norm, or the dynamic
+// share), the weights of the first n targets add up to sumF/norm + dyn * (number of dynamic targets among them).
+func lemmaSumWFixed(ts []*Target, n int, norm, dyn float64) {
+	if n <= 0 {
+		return
+	}
+	lemmaSumWFixed(ts, n-1, norm, dyn)
+}
+
+// lemmaTotalOne: with norm and dyn as weighTargets computes them, sumFixed/norm + dyn * (number of dynamic targets) = 1.
+func lemmaTotalOne(s float64, nf, n int, norm, dyn float64) {}
+
+// lemmaSumWEqual: n targets of weight w each weigh n*w together.
+func lemmaSumWEqual(ts []*Target, n int, w float64) {
+	if n <= 0 {
+		return
+	}
+	lemmaSumWEqual(ts, n-1, w)
+}
+
+// lemmaRecipMul: n * (1/n) = 1.
+func lemmaRecipMul(n int) {}
+
+// lemmaMulSucc: d * (k + 1) = d * k + d.
+func lemmaMulSucc(d float64, k int) {}
+
+// lemmaZeroArith: 0 / c = 0 and d * 0 = 0.
+func lemmaZeroArith(c, d float64) {}
